@@ -128,14 +128,14 @@ def encodeContent (lang : Nat) (row : TagRow) (strip : Bool) (text : Bytes) : Ex
 def encodeContentRaw (lang : Nat) (row : TagRow) (text : Bytes) : Except Err Bytes :=
   if row.opts % 2 == 1 then (if text = [] then .ok [] else .ok (opaqueItem text))
   else if lang == 1801 && row.page == 0 && row.token == 0x0C then
-    (if cstr text = [] then .ok [] else .ok (base64ToOpaqueNoStrip (cstr text)))
+    (if cstr text = [] then .ok [] else .ok (base64ToOpaqueStrip (cstr text)))
   else encodeContent lang row false text
 
 def encodeAttr (lang : Nat) (arow : AttrRow) (icon : Bool) (text : Bytes) : Except Err Bytes :=
   if (lang == 1301 && arow.page == 0 && (arow.token == 0x0a || arow.token == 0x10)) ||
      (lang == 1701 && arow.page == 0 && arow.token == 0x05) then guarded encodeDatetime text
   else if lang == 1901 && icon && arow.page == 0 && arow.token == 0x11 then
-    (if cstr text = [] then .ok [] else .ok (base64ToOpaqueNoStrip (cstr text)))
+    (if cstr text = [] then .ok [] else .ok (base64ToOpaqueStrip (cstr text)))
   else if cstr text = [] then .ok [] else .ok (strItem (cstr text))
 
 structure Shape where
@@ -217,7 +217,7 @@ def typed (args : List String) : String :=
       else if verb == "DT_ENC" then fmt (guarded encodeDatetime p)
       else if verb == "WVI_ENC" then (if cstr p = [] then "OK -" else fmtOpt (encodeWvInt (cstr p)))
       else if verb == "WVD_ENC" then fmt (guarded (fun s => (encodeWvDate s).map WvItem.bytes) p)
-      else if verb == "DRM_ENC" then (if cstr p = [] then "OK -" else fmt (.ok (base64ToOpaqueNoStrip (cstr p))))
+      else if verb == "DRM_ENC" then (if cstr p = [] then "OK -" else fmt (.ok (base64ToOpaqueStrip (cstr p))))
       else "BADVERB"
   | ["SWEEP_WVI", seed, count] => sweepWvi (UInt64.ofNat seed.toNat!) count.toNat!
   | _ => "BADVERB"
